@@ -1,7 +1,10 @@
 """Write seeded/<id>/meta.json from the patch, the confirmation logs and the sweep results."""
 import json, os, re, glob
 ROOT = '/verif/seeded'
-INITIAL_MISS = {'C13-9': 'reads of the request stream were only exercised on in-memory streams (end-of-stream arrives at once) and no contract bounded the size of a read; the same gap hid the genuine Content-Length: -1 defect (fixed in 10256c0)',
+INITIAL_MISS = {'C16-10': 'the chain from the associated location state to the published scope was bounded (C16.published_chain builds every state from scratch); update_from_sdc_location on a state that already carries a location was not under contract',
+                'C17-10': 'the codec handlers were trusted library calls (round trip of ONE message at a time, bounded); nothing stated that they keep no state between / across concurrent messages',
+                'C20-10': 'the bounded text-filter check fills a storage, queries and compares - it never queries twice with a changed text in between; how n_o_l is obtained was not under contract',
+                'C13-9': 'reads of the request stream were only exercised on in-memory streams (end-of-stream arrives at once) and no contract bounded the size of a read; the same gap hid the genuine Content-Length: -1 defect (fixed in 10256c0)',
                 'C15-9': 'stopping the networking thread was not under contract: join() with a timeout that clears the send queue drops scheduled repetitions; the schedule and the send loop themselves were proved',
                 'C18-9': 'the converters were under contract, the shared read path of typed attributes (which decides whether a present lexical value reaches its converter at all) only under C05',
                 'C01-9': 'buffering of early notifications (reload_all / _pre_check_report_ok) was proved under C06 only; C01 names it as its third mechanism but did not re-check it, and no bounded history delivers a report during the replay',
